@@ -146,11 +146,17 @@ def cases(rng, tier):
 # ---------------------------------------------------------------------------------------------- real code
 
 def fresh_registry():
-    """the state of a new process: the module that owns the registry is executed again (new decoder objects, new
-    module-level names); the decoder classes' modules hold only constant tables"""
-    import importlib
-    m = importlib.import_module("drxtract.bitd.bitd2bmp")
-    m = importlib.reload(m)
+    """the state of a new process: every module of the bitmap package is executed again, base classes first (new decoder objects,
+    new module-level names in decoder.py, the per-depth decoder modules and the registry module alike)"""
+    import importlib, sys as _sys
+    importlib.import_module("drxtract.bitd.bitd2bmp")
+    names = sorted(n for n in _sys.modules if n.startswith("drxtract.bitd.") and _sys.modules[n] is not None)
+    order = (["drxtract.bitd.decoder"] + [n for n in names if n not in ("drxtract.bitd.decoder", "drxtract.bitd.bitd2bmp")]
+             + ["drxtract.bitd.bitd2bmp"])
+    m = None
+    for n in order:
+        if n in _sys.modules:
+            m = importlib.reload(_sys.modules[n])
     return m
 
 
@@ -260,6 +266,17 @@ def other_inputs(rng, tier):
             rec = b"".join(struct.pack(">hh", len(d), off) + d for off, d in deltas)
             body += struct.pack(">h", len(rec) + 2) + rec
         return struct.pack(">iiihhhh", 20 + len(body), 0x14, len(frames), 0, frame_size, channels, 0) + body
+    def damaged(frame_size, channels=8):
+        # a tolerated damaged record: its first delta announces more bytes than the record holds (the parser abandons the rest of
+        # the record), followed by a well-formed delta that must therefore NOT be applied; then a normal frame
+        bad = struct.pack(">hh", 50, 0) + b"\x01\x02" + struct.pack(">hh", 4, 44) + b"\x09\x09\x07\x01"
+        rec1 = struct.pack(">h", len(bad) + 2) + bad
+        good = struct.pack(">hh", 2, 2) + b"\x05\x06"
+        rec2 = struct.pack(">h", len(good) + 2) + good
+        body = rec1 + rec2
+        return struct.pack(">iiihhhh", 20 + len(body), 0x14, 2, 0, frame_size, channels, 0) + body
+    for fs in (20, 24):
+        out.insert(0, ("vwsc:syn-damaged-%d" % fs, "vwsc", damaged(fs), None))
     for fs in (20, 24):
         add("vwsc:syn-full-%d" % fs, "vwsc", score([[(0, bytes(range(1, 41)))], [(40, bytes(range(41, 81)))]], fs), cuts=False)
         add("vwsc:syn-part-%d" % fs, "vwsc", score([[(44, b"\x09\x09\x07\x01")], []], fs), cuts=False)
